@@ -292,3 +292,17 @@ def c15(ck):
         r += gen_and_replay_keep(ck, "GenC15", {"TwoNames": "TRUE"}, timeout=2400)
     ck.extra["model_dangerous_cases"] = sum(1 for c, _ in r if c.get("danger"))
     ck.exhaustive = True
+
+
+@check("C19")
+def c19(ck):
+    ck.rule = ("every C01-grammar program of <= MaxSize nodes and 17 multi-form programs (closures, macros, try/throw, "
+               "quasiquote, atoms, eval, strings holding comment characters, errors in the middle) x 12 layouts rendered "
+               "by the model (comment after every token, blank lines, CRLF, tabs, no final newline, trailing comment "
+               "with/without newline, leading comment, ';; $MODULE' header) x 7 delivery routes on the real code (READ "
+               "with module, READ nil cursor, position-less AST, READ of PRINT of READ, REPL form by form, one wrapping "
+               "do, load-file); each compared with Def.tla's outcome: result, effect log, error-ness, globals")
+    consts = {"MaxSize": 2 if ck.quick else 3}
+    gen_and_replay(ck, "GenC19", consts, timeout=1500)
+    ck.exhaustive = True
+    ck.extra["bounds"] = consts
